@@ -359,6 +359,12 @@ def memo_audit(f, repo=None) -> list[tuple[str, ast.AST, list[str], list[str]]]:
             return e.id
         if isinstance(e, ast.Attribute) and isinstance(e.value, ast.Name) and e.value.id in ("self", "cls") and ("cache" in e.attr.lower() or "memo" in e.attr.lower()):
             return f"{e.value.id}.{e.attr}"
+        # a container created once in the class body is shared by all instances (and outlives every pass run)
+        cls_ = getattr(f, "cls", None)
+        if isinstance(e, ast.Attribute) and isinstance(e.value, ast.Name) and e.value.id in ("self", "cls") and cls_ is not None:
+            cv = cls_.consts.get(e.attr)
+            if isinstance(cv, ast.Dict) and not cv.keys or (isinstance(cv, ast.Call) and isinstance(cv.func, ast.Name) and cv.func.id in ("dict", "defaultdict", "OrderedDict") and not cv.args):
+                return f"type({e.value.id}).{e.attr}"
         if isinstance(e, ast.Attribute) and isinstance(e.value, ast.Call) and ast.unparse(e.value.func) == "type" and ("cache" in e.attr.lower() or "memo" in e.attr.lower()):
             return ast.unparse(e)
         return None
@@ -453,8 +459,9 @@ def loop_dedupe_audit(fl, func) -> list[tuple[str, object, set[str], set[str]]]:
         if isinstance(tgt, ast.Name) and v is not None and (isinstance(v, ast.Dict) and not v.keys or (isinstance(v, ast.Call) and callee_name(v) in ("dict", "defaultdict", "OrderedDict") and not v.args)):
             tables.add(tgt.id)
     for st in fl.stmts(ast.Assign):
-        tgt = st.node.targets[0]
-        if not (st.reachable and isinstance(tgt, ast.Subscript) and isinstance(tgt.value, ast.Name) and tgt.value.id in tables):
+        # also the chained form `x = table[key] = value`
+        tgt = next((t_ for t_ in st.node.targets if isinstance(t_, ast.Subscript) and isinstance(t_.value, ast.Name) and t_.value.id in tables), None)
+        if not (st.reachable and tgt is not None):
             continue
         d = tgt.value.id
         loops = [l for l in st.loops if isinstance(l, ast.For)]
@@ -467,6 +474,27 @@ def loop_dedupe_audit(fl, func) -> list[tuple[str, object, set[str], set[str]]]:
                   for x in lp.body for n in ast.walk(x))
         if not hit:
             continue
+        # .. and the remembered value is USED in place of a computed one: a table whose entries are only compared with the current value
+        # (`if k in seen and seen[k] != v: <conflict>`) checks consistency, it does not reuse anything
+        cmp_operands = {id(o) for x in func.node.body for n in ast.walk(x) if isinstance(n, ast.Compare) and all(isinstance(op_, (ast.Eq, ast.NotEq, ast.Is, ast.IsNot)) for op_ in n.ops)
+                        for o in [n.left, *n.comparators]}
+        reused = any(
+            (isinstance(n, ast.Subscript) and isinstance(n.ctx, ast.Load) and isinstance(n.value, ast.Name) and n.value.id == d and id(n) not in cmp_operands)
+            or (isinstance(n, ast.Call) and isinstance(n.func, ast.Attribute) and n.func.attr in ("get", "setdefault") and isinstance(n.func.value, ast.Name) and n.func.value.id == d
+                and id(n) not in cmp_operands)
+            or (isinstance(n, ast.Call) and isinstance(n.func, ast.Attribute) and n.func.attr in ("values", "items") and isinstance(n.func.value, ast.Name) and n.func.value.id == d)
+            for x in func.node.body for n in ast.walk(x))  # in the loop or after it
+        if not reused:
+            continue
+        # a hit that is compared with the value of this iteration (`d[k] != v` where v is what gets stored) is verified, not trusted
+        vtxt = ast.unparse(st.node.value)
+        verified = any(
+            isinstance(n, ast.Compare) and len(n.ops) == 1 and isinstance(n.ops[0], (ast.Eq, ast.NotEq, ast.Is, ast.IsNot))
+            and {True} == {True for a_, b_ in ((n.left, n.comparators[0]), (n.comparators[0], n.left))
+                           if isinstance(a_, ast.Subscript) and isinstance(a_.value, ast.Name) and a_.value.id == d and ast.unparse(b_) == vtxt}
+            for x in lp.body for n in ast.walk(x))
+        if verified:
+            continue
         # the key determines a loop variable only if it CONTAINS it (a function of it, like `operands[i]`, may coincide for different i)
         k_ = norm.primary(st.expand(tgt.slice))
         elts = k_.elts if isinstance(k_, ast.Tuple) else [k_]
@@ -476,3 +504,42 @@ def loop_dedupe_audit(fl, func) -> list[tuple[str, object, set[str], set[str]]]:
         # loop variables bound together (zip / enumerate) are distinct coordinates: none determines another
         out.append((d, st, deps, key_vars))
     return out
+
+
+def cache_audit(repo, chk, prop: str) -> None:
+    """cross-cutting: in every function a property's rules analysed, a table that remembers a computed value across loop iterations (or across
+    calls) and skips the computation on a hit must be keyed by everything the value was computed from - otherwise a later iteration / call gets the
+    result of other inputs, whatever the function computes"""
+    from sa.flow import Flow
+
+    rule = f"{prop}.cache-keys"
+    chk.rule(rule, "in the analysed functions no table hands an earlier result to a later iteration or call under a key that does not determine "
+             "everything the result was computed from", floor=0)
+    for key in sorted(chk.functions):
+        rel, _, qual = key.partition(":")
+        f = repo.try_func(rel, qual) if qual else None
+        if f is None or not isinstance(f.node, (ast.FunctionDef, ast.AsyncFunctionDef)):
+            continue
+        fn = f.node
+        # across calls
+        try:
+            for cont, node, problems, _unknown in memo_audit(f, repo):
+                chk.result(not problems, rule, f"{f.key}:{cont}", f"{f.module.relpath}:{getattr(node, 'lineno', fn.lineno)}",
+                           f"`{cont}` is keyed by what the result depends on",
+                           f"`{cont}` is consulted before computing and returns an earlier result although " + "; ".join(problems[:3]))
+        except AnalysisError:
+            raise
+        # across iterations: only functions that create a local table and store into it inside a loop are walked
+        empties = {t.id for n in ast.walk(fn) if isinstance(n, (ast.Assign, ast.AnnAssign)) and n.value is not None
+                   and (isinstance(n.value, ast.Dict) and not n.value.keys or (isinstance(n.value, ast.Call) and callee_name(n.value) in ("dict", "defaultdict", "OrderedDict") and not n.value.args))
+                   for t in (n.targets if isinstance(n, ast.Assign) else [n.target]) if isinstance(t, ast.Name)}
+        stores = any(isinstance(x, ast.Subscript) and isinstance(x.ctx, ast.Store) and isinstance(x.value, ast.Name) and x.value.id in empties
+                     for lp in ast.walk(fn) if isinstance(lp, ast.For) for x in ast.walk(lp))
+        if not (empties and stores):
+            continue
+        fl = Flow(f, repo)
+        for d, st, deps, key_vars in loop_dedupe_audit(fl, f):
+            missing = deps - key_vars
+            chk.result(not missing, rule, f"{f.key}:{d}", st.where(), f"`{d}` is keyed by {sorted(key_vars)}, which determine the stored value",
+                       f"`{d}` remembers a value computed from {sorted(deps)} under a key that only determines {sorted(key_vars)}: a later iteration with the same key "
+                       f"and another {sorted(missing)} gets the first one's value")
